@@ -649,11 +649,18 @@ def ccLabels (c : Cfg) (g : Graph) : Nat → CcSt → List Nat → List Nat
       | .done _ => labels
       | .next s' => ccLabels c g f s' (if hit && !labels.contains v then v :: labels else labels)
 
+/-- the `tag` (type) of the struct nodes that stand for a struct type declared `#:mutable` -/
+def mutableStructTag : Nat := 2
+
 /-- where the printer goes from a node it has entered -/
 def printerSons (g : Graph) (v : Nat) : List Nat :=
   match g.kind v with
   | .list | .pair | .vec | .mvec | .map | .set => g.sons v
-  | .struct => (g.sons v).map fun j => if g.kind j == .box then (g.sons j).headD j else j   -- fields arrive unboxed
+  | .struct =>
+    -- a struct type declared `#:mutable` keeps every field in a slot and its fields arrive unboxed; the field of an
+    -- immutable struct that happens to hold a box arrives as that box (and the printer stops at it if it is labelled)
+    if (g.node v).tag == mutableStructTag then (g.sons v).map fun j => if g.kind j == .box then (g.sons j).headD j else j
+    else g.sons v
   | _ => []            -- boxes are handed to `Display for SteelVal`, closures / streams / leaves print a constant
 
 /-- recursion depth of the printer from `v` (cut off after `fuel` levels): it does not enter a labelled node -/
